@@ -19,16 +19,21 @@ def formsProds : String :=
     s!"{r.1};{r.2.1};{r.2.2.1};{if r.2.2.2.1 then "1" else "0"};{j syms};{j fields}"
   " ".intercalate (AcraModel.Generated.SqlForms.productions.map row)
 
-/-- `forms.paths`: the regenerated print paths: `kind;idx;field:rel,…;printed,…` (condition fields in hex) -/
+/-- `forms.paths`: the regenerated print paths: `kind;idx;field:rel:values,…;printed,…` (condition fields in hex; values: the string values of the constants of an `eq`/`notin` condition, hex joined by `+`, or the dialect type) -/
 def formsPaths : String :=
   let row (π : AcraModel.Sql.Forms.Path) : String :=
     let j (l : List String) := if l.isEmpty then "-" else ",".intercalate l
-    s!"{π.kind};{π.idx};{j (π.conds.map fun c => s!"{hexS c.field}:{c.rel}")};{j π.printed}"
+    let vals (c : AcraModel.Sql.Forms.Cond) : String :=
+      if c.rel == "eq" || c.rel == "notin" then
+        "+".intercalate ((c.arg.splitOn ",").filterMap fun n =>
+          (AcraModel.Generated.SqlForms.condConsts.find? (·.1 == n)).map (hexS ·.2))
+      else if c.rel == "dialect" then hexS c.arg else "-"
+    s!"{π.kind};{π.idx};{j (π.conds.map fun c => s!"{hexS c.field}:{c.rel}:{vals c}")};{j π.printed}"
   " ".intercalate (AcraModel.Sql.Forms.paths.map row)
 
 /-- `forms.omissions`: (kind, path, field) a compatible production may fill and the path does not represent -/
 def formsOmissions : String :=
-  let l := AcraModel.Sql.Forms.omissionsC AcraModel.Sql.Forms.prods AcraModel.Sql.Forms.paths
+  let l := AcraModel.Sql.Forms.omissions AcraModel.Sql.Forms.prods AcraModel.Sql.Forms.paths
   if l.isEmpty then "-" else " ".intercalate (l.map fun o => s!"{o.1};{o.2.1};{o.2.2}")
 
 def handle (op : String) (args : List String) : Option String :=
@@ -37,7 +42,7 @@ def handle (op : String) (args : List String) : Option String :=
   | "forms.paths", [] => some formsPaths
   | "forms.omissions", [] => some formsOmissions
   | "forms.tableok", [] => some (if AcraModel.Sql.Forms.tableOK then "true" else "false")
-  | "forms.path", kind :: present => some (match AcraModel.Sql.Forms.formatPath ⟨kind, present⟩ with
+  | "forms.path", kind :: present => some (match AcraModel.Sql.Forms.formatPath ⟨kind, present, []⟩ with
       | some π => toString π.idx
       | none => "none")
   | "lit.enc", [h] => do
